@@ -42,7 +42,10 @@ ASSUMPTIONS = ["fragments and parts are ACGT (parts in either case; CutWithEnzym
                "survive the pruning of dead ends to the fixpoint — decoys of any shape: single, chained, sharing their dead end or their lead-in, "
                "palindromic, digest by-products — no junction overhang is self-complementary and the forward overhang determines the reverse overhang); for every pool the exact "
                "set returned is characterised by ligate_exact (rings closed at the first return to the seed's forward overhang)"]
-PARTIAL = ["ligate_complete ('none missing') is proved for SIMPLE rings (junction overhangs pairwise distinct and non-palindromic, every fragment "
+PARTIAL = ["the schedule theorems are about a hand-transcribed Step system; its structural pin (synchronisation vocabulary + four order "
+           "facts, regenerated from clone.go; Props/C09Pin.lean clone_structure_pinned) is a soft obligation reported in the evidence; results "
+           "under GOMAXPROCS 1/2/16 and -race are judged on every run",
+           "ligate_complete ('none missing') is proved for SIMPLE rings (junction overhangs pairwise distinct and non-palindromic, every fragment "
            "in either orientation). A designed assembly also has non-simple rings (multi-lap concatemers of alternatives: a strict 2x2 design "
            "has 6 rings, 4 simple); ligate_designed proves that on designed pools exactly the simple rings are returned, each once, so the "
            "concatemers are NOT returned (and the judge forbids them). On other pools the code returns some non-simple closed chains and "
@@ -78,10 +81,10 @@ LEVEL_NOTE = ("Trusted: Lean kernel; harness + driver; the Go runtime is represe
               "clone.go 264-343 (races not expressible; a change of the goroutine structure is seen only by the GOMAXPROCS 1/2/16 and -race "
               "runs on a sample of cases, 20 repetitions each); BLAKE3 collision-freeness; C12 for the least rotation. A change of clone.go that brings a "
               "new synchronisation mechanism into the functions under CircularLigate (mutex, semaphore channel, select, sync.Map, second "
-              "collector, no channel), or that changes the Add/go, defer-Done, Wait/close or collector/Wait order, breaks clone_structure_pinned and is reported as VIOLATION … no-failing-input-found even if all results "
-              "stay the same — an accepted alarm: the schedule model is then no longer shown to describe the code; the harmless rewrites "
-              "seeded-harmless/C09-h1..3 and C10-h1..3 (helpers, range over the channel, buffered channel, one goroutine per seed, sync.Once "
-              "in the enzyme table) leave the facts unchanged. Palindromic junction "
+              "collector, no channel), or that changes the Add/go, defer-Done, Wait/close or collector/Wait order, breaks clone_structure_pinned (Props/C09Pin.lean), which is a SOFT obligation: the evidence records it "
+              "(soft_obligations_broken) and no violation is raised, because a harmless restructuring (seeded-harmless/C09-h5: bounded worker "
+              "pool, waiter goroutine closing the channel) breaks it too; the schedule theorems are about a hand-transcribed Step system, and "
+              "results under GOMAXPROCS 1/2/16 and -race are judged on every run. Palindromic junction "
               "overhangs are excluded by assumption. After three calls that do not return within the deadline the harness stops executing the "
               "remaining cases of the run: only in-quantifier requests are counted, the record lives in build/C09 keyed by the check process and "
               "its start time and is removed when the run begins and ends; a not-run reply that does not name three in-quantifier hung requests "
@@ -94,6 +97,7 @@ LEVEL_NOTE = ("Trusted: Lean kernel; harness + driver; the Go runtime is represe
               "class) and the sorting of key lists.")
 HARNESS_BIN = "run-clone"
 EXTRACT_BINS = ["extract-clone"]
+SOFT_MODULES = ["PolyVerif.Props.C09Pin"]
 TIMEOUT_MS = 10000
 NEEDS_RACE = True
 NEEDS_RACE_QUICK = True
@@ -382,6 +386,37 @@ def ggtwin_case(r, enz, where=None):
     return ["ggtwin", "twin", enz, ";".join(items), str(twin)] + perms(r, len(items))
 
 
+def junction_site_case(r, enz, strand, k):
+    """an assembly in which one JUNCTION spells the enzyme's recognition site (on the given strand) although no part has the
+    site inside its cut-out stretch: the fragment before the junction ends with the first letters of the site, the junction
+    overhang is its middle, the next fragment starts with the rest (BsaI: ...G + GTCT + C... = GGTCTC)"""
+    site = ENZ[enz][0]
+    avoid = (site, rc(site))
+    word = site if strand == "fwd" else rc(site)
+    i = r.randrange(3)
+    head, o, tail = word[:i], word[i:i + 4], word[i + 4:]
+    if o == rc(o):
+        return None
+    while True:
+        ohs = [o] + overhangs(r, k - 1)
+        if len(set(ohs)) == k and not any(rc(x) in ohs for x in ohs):
+            break
+    # junction 0 (overhang o) lies between the last fragment of the ring and the first
+    ring = []
+    for j in range(k):
+        sq = seqword(r, 3, 12, avoid)
+        if j == 0:
+            sq = tail + sq
+        if j == k - 1:
+            sq = sq + head
+        if k == 1:
+            sq = tail + seqword(r, 3, 12, avoid) + head
+        ring.append((sq, ohs[j], ohs[(j + 1) % k]))
+    if any(a in f[1] + f[0] + f[2] for f in ring for a in avoid):
+        return None
+    return gg_case(r, "junction-site-" + strand, enz, ring, [], multi=0.0)
+
+
 def behind_backbone(r, avoid=(), backbone=300):
     """a long fragment followed by short alternatives: >= 2 candidates at a junction at depth >= 2, plus a decoy that
     shares a forward overhang with a real fragment"""
@@ -573,6 +608,15 @@ def cases(seed, tier):
         if c:
             made += 1
             yield c
+    # a junction that spells the recognition site (either strand): the assembled plasmid carries the site, no part does
+    for enz in ENZ:
+        for strand in ("fwd", "rev"):
+            made = 0
+            while made < (2 if quick else 12):
+                c = junction_site_case(r, enz, strand, r.randint(1, 3))
+                if c:
+                    made += 1
+                    yield c
     # histories: the same sequence text first in one topology, then in the other, inside one process
     made, want = 0, (36 if quick else 400)
     while made < want:
